@@ -180,8 +180,18 @@ class Check(FormulaCheck):
         for _ in range(spec['n']):
             n = rnd.randint(1, 8)
             vals = sorted(rnd.choice([rnd.randint(-5, 5), rnd.randint(-50, 50), 0, rnd.choice([-0.5, 0.5, 2.5])]) for _ in range(n))
+            if rnd.random() < 0.15:
+                # items a few ulps apart (0.1+0.2 beside 0.3): different numbers, and sorted as such
+                import math
+                b = rnd.choice([0.3, 0.1 * 7, 1.0, rnd.uniform(0.1, 100), 0.1 + 0.2])
+                chain = [b]
+                for _ in range(rnd.randint(1, 4)):
+                    chain.append(math.nextafter(chain[-1], math.inf))
+                vals = sorted(set(rnd.sample(chain, rnd.randint(1, len(chain))) + [rnd.choice([0.1, 0.2, 0.5, 0.9, -1])]))
+                n = len(vals)
             present = rnd.random() < 0.6
-            x = rnd.choice(vals) if present else rnd.choice([min(vals) - rnd.randint(1, 3), max(vals) + rnd.randint(1, 3), rnd.randint(-60, 60) + 0.25])
+            x = rnd.choice(vals) if present else rnd.choice([min(vals) - rnd.randint(1, 3), max(vals) + rnd.randint(1, 3), rnd.randint(-60, 60) + 0.25,
+                                                              __import__('math').nextafter(rnd.choice(vals), rnd.choice([-1e9, 1e9]))])
             # type 0 on an arbitrary permutation
             perm = vals[:]
             rnd.shuffle(perm)
